@@ -1,3 +1,19 @@
+//! Engine for the `rten-generate` properties:
+//!   C31 logit filters, C32 generator token history, C33 samplers.
+//!
+//! `mc-generate <Cnn> [quick|thorough] [--replay <file>]`
+
+mod c31;
+mod c32;
+mod c33;
+mod util;
+
 fn main() {
-    vp_core::machinery_error("engine not built yet");
+    let prop = std::env::args().nth(1).unwrap_or_default();
+    match prop.as_str() {
+        "C31" => c31::run(vp_core::Ctx::from_env("C31")),
+        "C32" => c32::run(vp_core::Ctx::from_env("C32")),
+        "C33" => c33::run(vp_core::Ctx::from_env("C33")),
+        _ => vp_core::machinery_error("mc-generate: unknown property (expected C31, C32 or C33)"),
+    }
 }
